@@ -216,6 +216,25 @@ def r5(cx):
             got |= {nme for nme, tg in zip(tt["variants"], tt["targets"]) if tg == e[1]}
             if tt["otherwise"] == e[1]:
                 got |= set(tt.get("allvariants") or []) - set(tt["variants"])
+        # the phase that is switched on comes from a catalog read made by THIS write (or a helper every Ok exit of which performs that read) - not from a remembered answer
+        GSS = "metadata::client::MetadataClient::get_split_state"
+        fresh_ok = {GSS} | cx.prog.must_wrappers({GSS})
+        for bi, blk in enumerate(b.blocks):
+            t = blk["term"]
+            if t["k"] == "switch" and (t.get("enum") or "").endswith("SplitPhase") and not blk.get("cleanup"):
+                dl = t["discr"].get("pl", {}).get("l")
+                src = [st["rv"]["pl"] for st in blk["stmts"] if st.get("lhs", {}).get("l") == dl and st["rv"].get("k") == "discr"]
+                if not src:
+                    continue
+                o = M.provenance(b, src[0], at=(bi, len(blk["stmts"]) - 1))
+                cs = {x[1][1] for x in o if x[0] == "call"}
+                local_other = sorted(c for c in cs if c not in fresh_ok and (c in cx.prog.calls or c.startswith("ingester::")))
+                if cs & fresh_ok and not local_other:
+                    cx.passed(k, "phase-from-fresh-catalog-read", [b.sp(bi)])
+                else:
+                    cx.violation(k, "phase-from-fresh-catalog-read", "%s: the split phase that decides the dual write comes from %s, which can answer without reading the catalog in this write: "
+                                 "a write accepted after the split entered dual-write / back-fill but inside the remembered answer's lifetime gets no copy in either new shard" % (
+                                     b.sp(bi), local_other or sorted(cs) or "no catalog read"), [b.sp(bi)])
         if edges and got == {"DualWrite", "Backfill"} and all(b.dominated_by_edges(c, edges) for c in calls):
             cx.passed(k, "dual-write-phases", [b.sp(c) for c in calls], sorted(got))
         else:
